@@ -242,7 +242,9 @@ Definition qapply : prim Q -> qlp -> qlp := papply qzero Qopp qnz (d2q dinf).
    every index counts for the implicit creation of columns / rows:
    - the rational LP in addRowRational / addColRational(const mpq_t* ...): the loop runs over the caller's arrays;
    - the real LP in addRowsRational / addColsRational(const LPRowSetRational& / LPColSetRational&): the converted set
-     keeps entries whose double image is 0.0 *)
+     keeps entries whose double image is 0.0;
+   - the real LP in addRowRational / addColRational(const mpq_t pointers): doAddRow / doAddCol(value, vector, value) create
+     the missing columns / rows from the indices of the argument vector, which keeps entries whose double image is 0.0 *)
 Definition rapply_all : prim dy -> rlp -> rlp := papply dzero dneg (fun _ => true) dinf.
 Definition qapply_all : prim Q -> qlp -> qlp := papply qzero Qopp (fun _ => true) (d2q dinf).
 Definition applys {T} (ap : prim T -> lp T -> lp T) (ps : list (prim T)) (l : lp T) : lp T :=
@@ -508,7 +510,11 @@ Section Model.
   Definition qap_of (o : qop) : prim Q -> qlp -> qlp :=
     match o with QAddRow true _ | QAddCol true _ => qapply_all | _ => qapply end.
   Definition rap_of (o : qop) : prim dy -> rlp -> rlp :=
-    match o with QAddRows false _ | QAddCols false _ => rapply_all | _ => rapply end.
+    match o with
+    | QAddRows false _ | QAddCols false _ => rapply_all
+    | QAddRow true _ | QAddCol true _ => rapply_all      (* doAddRow / doAddCol(value, vector, value): the argument's indices *)
+    | _ => rapply
+    end.
 
   Definition with_lps (s : state) (r : rlp) (q : option qlp) (t : list rtype * list rtype) : state :=
     mkSt r q (fst t) (snd t) (mode s) (pinf s) (pmax s) (eps s).
